@@ -292,7 +292,8 @@ c10_ws!(c10_ws_f4, [], 0, [1, 1, 1, 1], 4, 4, WS_A, 5, false, 6, false);
 c10_ws!(c10_ws_block2, [b'/', b'*'], 2, [1, 1], 2, 4, WS_A, 5, true, 6, false);
 c10_ws!(c10_ws_star2, [b'/', b'*', b'*'], 3, [1, 1], 2, 5, WS_A, 5, true, 7, false);
 c10_ws!(c10_ws_line2, [b'/', b'/'], 2, [1, 1], 2, 4, WS_A, 5, true, 6, false);
-c10_ws!(c10_ws_linemb, [b'/', b'/'], 2, [3, 1, 1], 3, 7, WS_A, 5, true, 9, false);
+c10_ws!(c10_ws_linemb, [b'/', b'/'], 2, [3, 1], 2, 6, WS_A, 5, true, 8, false);
+c10_ws!(c10_ws_linemb3, [b'/', b'/'], 2, [3, 1, 1], 3, 7, WS_A, 5, true, 9, false);
 c10_ws!(c10_ws_star3, [b'/', b'*', b'*'], 3, [1, 1, 1], 3, 6, WS_A, 5, true, 8, false);
 c10_ws!(c10_ws_block3, [b'/', b'*'], 2, [1, 1, 1], 3, 5, WS_A, 5, true, 7, false);
 c10_ws!(c10_ws_line3, [b'/', b'/'], 2, [1, 1, 1], 3, 5, WS_A, 5, true, 7, false);
